@@ -54,7 +54,7 @@ Definition nf_class (t : ttype) : N :=
   | WOk (Some (FComment _)) _ => 2
   | WOk (Some (FDesc _)) _ => 3
   | WOk (Some _) _ => 4
-  | WErr _ _ => 5
+  | WErr _ _ _ => 5
   | _ => 6
   end.
 (* the Go arms in source order: EOF, EOL, RBRACE, COMMENT/BLOCK_COMMENT, DESCRIPTION, IDENT/BOOL, default *)
@@ -81,7 +81,7 @@ Definition ws_class (t : ttype) : N :=
     | None, None => 3
     end
   | WOk _ _ => 5
-  | WErr _ _ => 4
+  | WErr _ _ _ => 4
   | _ => 6
   end.
 Definition ws_arm_classes : list N := [0; 1; 2; 3; 4].
@@ -94,10 +94,35 @@ Lemma walk_statement_arms_agree :
 Proof. split; vm_compute; reflexivity. Qed.
 
 (* the nesting bound of array values, and that popValue still has one recursive call guarded by it *)
-Lemma max_value_depth_agrees : max_value_depth = TokensGen.max_value_depth.
-Proof. reflexivity. Qed.
+(* the model's bound is the constant read from parser.go; it must leave room for real files *)
+Lemma max_value_depth_agrees : max_value_depth = TokensGen.max_value_depth /\ N.leb 16 max_value_depth = true.
+Proof. split; reflexivity. Qed.
 Lemma pop_value_guarded : TokensGen.pop_value_recursive_calls = 1 /\ TokensGen.pop_value_depth_guards = 1.
 Proof. split; reflexivity. Qed.
+
+(* messages: every text / format the model reads from the code is there, every error site of the
+   model finds its expected set, every token type has a printed text, and the operator range of
+   Token.String is the operator table *)
+Lemma message_texts_present :
+  forallb (fun m => negb (list_N_eqb m []))
+    [msg_eof; msg_eol_regex; msg_eol_string; msg_escape; msg_second_dot; slit "lexer.go:NextToken" 0;
+     slit "errors.go:msg" 0; slit "errors.go:msg" 1; slit "errors.go:msg" 2;
+     slit "token.go:String" 0; slit "token.go:String" 1; slit "token.go:String" 3;
+     slit "parser.go:popValue" 0; msg_close; msg_unclosed] = true.
+Proof. vm_compute. reflexivity. Qed.
+(* the cut of a literal in Token.String: threshold and kept length are there, kept <= threshold *)
+Lemma token_string_cut_present :
+  match TokensGen.token_string_ints with [a; b] => N.leb b a && N.ltb 0 b | _ => false end = true.
+Proof. vm_compute. reflexivity. Qed.
+Lemma expected_sites_present :
+  forallb (fun l => match l with [] => false | _ => true end)
+    [exp_ident; exp_elems; exp_value; exp_tag; exp_end; exp_assign; exp_plus_assign; exp_header; exp_fragment] = true.
+Proof. vm_compute. reflexivity. Qed.
+Lemma token_texts_present : forallb (fun t => negb (list_N_eqb (tt_text t) [])) all_tt = true.
+Proof. vm_compute. reflexivity. Qed.
+Lemma is_operator_agrees :
+  forallb (fun t => Bool.eqb (is_operator t) (existsb (fun e => N.eqb (snd e) (tt_code t)) TokensGen.operators)) all_tt = true.
+Proof. vm_compute. reflexivity. Qed.
 
 (* explicit panic( calls in the anchored files: only the default arm of the formatter's type
    switch over the closed set of fragment types (unreachable: walkFragments builds no other type) *)
